@@ -81,7 +81,9 @@ func (e *Engine) callFunction(st *State, fr *Frame, callee *ssa.Function, bindin
 		}
 	}
 	if m, ok := libModels[full]; ok {
-		setRes(m(e, st, fr, args, resT, pos, ins))
+		r := m(e, st, fr, args, resT, pos, ins)
+		setRes(r)
+		e.afterCallEvent(st, fr, callee, args, r, pos, ins) // "after-call" clauses may name the result of a modelled library call
 		return
 	}
 	inRepo := callee.Blocks != nil && (e.isRepoFunc(callee))
@@ -155,7 +157,9 @@ func (e *Engine) callFunction(st *State, fr *Frame, callee *ssa.Function, bindin
 			}
 		}
 	}
-	setRes(e.unknownCall(st, full, args, resT, false))
+	ur := e.unknownCall(st, full, args, resT, false)
+	setRes(ur)
+	e.afterCallEvent(st, fr, callee, args, ur, pos, ins) // ... and of an unmodelled one (an arbitrary value of the result type)
 }
 
 func (e *Engine) newFrame(fn *ssa.Function) *Frame {
